@@ -68,7 +68,7 @@ func LargeCatalogue(chainLen int) []Adapter {
 			qp = append(qp, qPair{s, c, 1})
 		}
 	}
-	qp = append(qp, qPair{0, 100, 2}, qPair{0, 101, 2}, qPair{12, 100, 2}, qPair{10, 102, 0})
+	qp = append(qp, qPair{0, 100, 2}, qPair{0, 101, 2}, qPair{12, 100, 2}, qPair{10, 102, 0}, qPair{0, 99, 0}, qPair{0, 4094, 0})
 	reusable = []int{1, 2, 3, 4, 5, 6}
 	macs := []int{1, 1, 2, 3, 3, 4, 5, 6}
 	ids := []uint16{}
